@@ -114,3 +114,31 @@ class Score:
 
 def syntactic_kind(line):
     return H.line_kind(line.split('\t'))
+
+
+def derive_document(ctx, d, doc, x, cs, derive):
+    """A document that was not imported but derived through the API: a clone, the result of a transposition (same rows, other pitch
+    letters), the result of concat over two or three fragments of the text.  -> document or None (derivation refused: C15 / C19 decide)."""
+    import random
+    import kernpy as kp
+    drng = random.Random(cs ^ 0xDE51)
+    try:
+        if derive == 'clone':
+            out = d.clone()
+        elif derive == 'transposed':
+            out = d.to_transposed(drng.choice(['P5', 'M2', 'm3', 'octave']), drng.choice(['up', 'down']))
+        elif derive == 'concat':
+            lines_ = x.split('\n')
+            bars_ = [i for i, ln in enumerate(doc.lines) if ln.kind == 'bar']
+            if not bars_:
+                return None
+            cuts_ = sorted(drng.sample(bars_, min(len(bars_), drng.choice([1, 1, 2]))))
+            b_ = [0] + cuts_ + [len(lines_)]
+            out, _idx = kp.concat(['\n'.join(lines_[b_[i]:b_[i + 1]]) for i in range(len(b_) - 1)])
+        else:
+            return d
+    except Exception as ex:  # noqa
+        ctx.mon(f'derivation_failed:{derive}:{type(ex).__name__}')
+        return None
+    ctx.mon(f'derived_documents:{derive}')
+    return out
